@@ -497,6 +497,10 @@ type debPkg struct {
 
 // genDeb draws a package.  pair selects the (control codec, data codec)
 // combination (0..35) so that all 36 are covered by construction.
+// debDataFirst: the next package built has its data member before its control
+// member (set by checks for which the stored order is the adversary's choice).
+var debDataFirst bool
+
 func genDeb(t *rt.Tape, r *rt.Run, pair int, codecs []string) *debPkg {
 	loadFixtures()
 	p := &debPkg{BinVer: "2.0\n"}
@@ -537,6 +541,11 @@ func genDeb(t *rt.Tape, r *rt.Run, pair int, codecs []string) *debPkg {
 	p.CtlMember = mk("control.tar"+codecExt(p.CtlCodec), ctlBytes)
 	p.DataMember = mk("data.tar"+codecExt(p.DataCodec), dataBytes)
 	p.Members = []*arMember{p.BinMember, p.CtlMember, p.DataMember}
+	if debDataFirst {
+		// not the order deb(5) prescribes, but one the loader accepts (it finds the
+		// members by name): whoever stores the package chooses the order
+		p.Members = []*arMember{p.BinMember, p.DataMember, p.CtlMember}
+	}
 	// extra '_'-prefixed members in any position after debian-binary
 	for i, n := 0, t.Weighted([]int{4, 2, 1}, "deb.nextra"); i < n; i++ {
 		x := mk(fmt.Sprintf("_extra%d", i), t.Sub("deb.extra").Bytes(t.Range(0, 50, "deb.extralen")))
